@@ -179,7 +179,8 @@ def _explore(comp, task):
         for c in task["symbolic_classes"]:
             sym_dims[c] = z3.Int(f"dim_{c}")
             dv[c] = sym_dims[c]
-    setup = Setup(comp, dv, task["N"], uf_vals=(mode == "c06"))
+    use_uf = mode == "c06" and task.get("falg", "uf") == "uf"
+    setup = Setup(comp, dv, task["N"], uf_vals=use_uf)
     fns = comp.functions
     names = list(comp.formats.keys())
     out1 = comp.target
@@ -211,7 +212,7 @@ def _explore(comp, task):
         cap_lit = _cap_literal(sent)
 
     def mk(prefix):
-        m = Machine(prefix, max_loop_iter=bound, solver=solver, falg=sym.UFAlgebra() if mode == "c06" else None)
+        m = Machine(prefix, max_loop_iter=bound, solver=solver, falg=sym.UFAlgebra() if use_uf else None)
         m.shared_solver = True
         return m
 
